@@ -37,6 +37,10 @@ pub fn program(cls: &str, errfile: u64) -> (String, String) {
             "err_cycle" => format!("module {m}\nstruct {s} {{ x: int32 }}\nstruct Loop{m} {{ again: Loop{m} }}\n"),
             "err_redef" => format!("module {m}\nstruct {s} {{ x: int32 }}\nstruct Twice {{}}\nstruct Twice {{}}\n"),
             "err_rule" => format!("module {m}\nstruct {s} {{ x: tag(1) int32 }}\n"),
+            "err_256" => {
+                let fields: Vec<String> = (0..256).map(|k| format!("  f{k}: Missing{k}")).collect();
+                format!("module {m}\nstruct {s} {{\n  x: int32\n{}\n}}\n", fields.join("\n"))
+            }
             _ => format!("module {m}\nstruct {s} {{ x: int32 }}\n"),
         }
     };
